@@ -14,6 +14,8 @@
 //!   idx: IdxMode::{None,Natural,Permuted,Sparse}, model, extras, min_contig_len, v45_numbers }`
 //!   (build with `HeaderOpts::full() / ::bcf(idx) / ::common() / ::indexable(min_len)` or
 //!   `..Default::default()`: fields may be added);
+//! * [`add_other_line_variants`]`(&mut Rng, &mut HeaderDesc)` — repeated / same-key / equal-field other lines
+//!   (opt-in, not part of `gen_header`);
 //! * [`gen_record`]`(&mut Rng, &HeaderDesc, &RecOpts) -> RecDesc` — `RecOpts { model:
 //!   Model::{Full,Bcf,Common}, nan, invalid_ints, rare }` (`RecOpts::full() / ::bcf() / ::common()`); consistent with the header (Number=A/R/G
 //!   lengths follow the ALT count, FORMAT keys / sample count follow the header, first-allele
@@ -50,7 +52,7 @@ pub mod model;
 pub mod text;
 
 pub use conv::{header_desc_of, rec_desc_of_buf, rec_desc_of_record, series_of_record, to_noodles_header, to_record_buf};
-pub use r#gen::{HeaderOpts, IdxMode, Model, RecOpts, assign_idx, coordinate_sorted_set, features, format_combos, gen_header, gen_record, gen_record_at, gen_rich_record, gt_separator_matrix, info_combos, minimal_record};
+pub use r#gen::{add_other_line_variants, HeaderOpts, IdxMode, Model, RecOpts, assign_idx, coordinate_sorted_set, features, format_combos, gen_header, gen_record, gen_record_at, gen_rich_record, gt_separator_matrix, info_combos, minimal_record};
 pub use model::{AltDef, ContigDef, FieldDef, FieldDiff, FilterDef, GtAllele, HeaderDesc, Num, OtherLine, RecDesc, Tol, Ty, Val, classify, diff_headers, diff_records, opt_val_eq, show_val, val_eq};
 pub use text::{gt_text, header_from_text, implied_first_phasing, parse_gt, percent_decode, percent_encode, rec_from_line, reserved_def, span, to_vcf_header, to_vcf_line};
 
